@@ -1090,7 +1090,9 @@ func SeqNth(s, i *Term) *Term {
 		p := SeqConcat(s.Args[:len(s.Args)-1]...)
 		e := s.Args[len(s.Args)-1].Args[0]
 		n := SeqLen(p)
-		return Ite(And(Le(Int(0), i), Lt(i, n)), SeqNth(p, i), Ite(Eq(i, n), e, mk("seq.nth", s.Sort.Elem, s, i)))
+		// (an index outside [0, n] reads an unspecified element either way: nth(p, i) stands for it,
+		// which keeps the term from growing each time it is rebuilt)
+		return Ite(Eq(i, n), e, SeqNth(p, i))
 	}
 	return mk("seq.nth", s.Sort.Elem, s, i)
 }
